@@ -56,6 +56,7 @@ fn alphabet() -> Vec<Op> {
         Op::Inc(1, 3),
         Op::Abs(2, 5),
         Op::Abs(2, 3),
+        Op::Inc(2, u64::MAX - 1),
         Op::Inc(2, 1),
         Op::GSet(3, 1.5),
         Op::GInc(3, 0.25),
@@ -341,7 +342,7 @@ fn e3(ctx: &Ctx, res: &mut PartResult, cfg: Config, depth: usize, first: Option<
     for (sig, msg, seq) in fails {
         res.violation(&sig, msg, json!({"seq": seq}));
     }
-    res.sample(json!({"config": format!("{:?}", cfg), "ops": format!("{:?}", [alpha[0], alpha[1], alpha[19], alpha[11], alpha[20], alpha[19]])}));
+    res.sample(json!({"config": format!("{:?}", cfg), "ops": format!("{:?}", [alpha[0], alpha[1], alpha[20], alpha[12], alpha[21], alpha[20]])}));
 }
 
 /// a long history: 200 samples (multi-block buckets) with renders in between
@@ -546,7 +547,7 @@ fn main() {
     driver::main(CheckDef {
         prop: "C07",
         level: "model_checking",
-        rule: "E3: for each of 6 builder configurations (default summaries, global buckets, per-metric override, global labels with one overridden by a key label, custom quantiles, unit suffix) every sequence of the stated depth over 21 operations (counter increment/absolute, gauge set/increment incl. NaN, -0.0, 1e300, histogram record incl. +inf and NaN samples, first/second description of a name with and without a unit, render, run_upkeep; keys incl. equal keys built differently) on a fresh real PrometheusRecorder, plus a final render; every render is done twice (same line set, quantile lines aside), parsed by the strict independent parser and compared with the reference (families, series label sets = global overridden by key, counter totals, gauge bit round trip, _count/_sum conservation, bucket counts, HELP and unit suffix of the first description); a 200-sample multi-block history; E1: all SC interleavings of record() threads with a drainer thread (render, run_upkeep, render), also with 63 samples recorded beforehand (block hand-over) and with a second draining thread (run_upkeep x2, what the periodic upkeep task is to a scrape), also into a bucketed series (true histogram: cumulative buckets consistent, +Inf bucket = _count in every render) (samples are distinct powers of two so every partial sum identifies the set of samples counted); distinct = distinct rendered line sets / outcomes",
+        rule: "E3: for each of 6 builder configurations (default summaries, global buckets, per-metric override, global labels with one overridden by a key label, custom quantiles, unit suffix) every sequence of the stated depth over 22 operations (counter increment/absolute incl. an increment that takes the total past 2^64 (totals are modulo 2^64), gauge set/increment incl. NaN, -0.0, 1e300, histogram record incl. +inf and NaN samples, first/second description of a name with and without a unit, render, run_upkeep; keys incl. equal keys built differently) on a fresh real PrometheusRecorder, plus a final render; every render is done twice (same line set, quantile lines aside), parsed by the strict independent parser and compared with the reference (families, series label sets = global overridden by key, counter totals, gauge bit round trip, _count/_sum conservation, bucket counts, HELP and unit suffix of the first description); a 200-sample multi-block history; E1: all SC interleavings of record() threads with a drainer thread (render, run_upkeep, render), also with 63 samples recorded beforehand (block hand-over) and with a second draining thread (run_upkeep x2, what the periodic upkeep task is to a scrape), also into a bucketed series (true histogram: cumulative buckets consistent, +Inf bucket = _count in every render) (samples are distinct powers of two so every partial sum identifies the set of samples counted); distinct = distinct rendered line sets / outcomes",
         assumptions: &["E1: sequential consistency, one registry shard", "dyadic sample values so that sums are exact in any order"],
         parts,
         run,
